@@ -165,12 +165,69 @@ Definition shift_left (n : nat) (vs : list val) : list val := skipn n vs ++ repe
 Fixpoint number_from (i : nat) (vs : list val) : list val :=
   match vs with [] => [] | _ :: t => qn (inject_Z (Z.of_nat i)) :: number_from (S i) t end.
 
+(* ---- window functions added for C27 (additive: names that used to fall through to the aggregate default, i.e. to VNull) *)
+(* first / last: the first / last NON-NULL value of the ordered partition (pandas GroupBy.first / last), else null *)
+Definition first_nonnull (vs : list val) : val :=
+  match filter (fun v => negb (is_null v)) vs with [] => VNull | v :: _ => v end.
+Definition last_nonnull (vs : list val) : val := first_nonnull (rev vs).
+(* ffill: a null takes the closest earlier non-null value; bfill: the closest later one *)
+Fixpoint ffill_from (acc : val) (vs : list val) : list val :=
+  match vs with [] => [] | v :: t => let a := if is_null v then acc else v in a :: ffill_from a t end.
+Fixpoint bfill_list (vs : list val) : list val :=
+  match vs with
+  | [] => []
+  | v :: t => let r := bfill_list t in (if is_null v then match r with [] => VNull | x :: _ => x end else v) :: r
+  end.
+(* rank: average rank of the VALUE among the non-null values of the partition (pandas / polars default method); null stays null *)
+Definition rank_val (vs : list val) (v : val) : val :=
+  match num_of v with
+  | None => VNull
+  | Some x => let xs := nums vs in
+              let lt := List.length (filter (fun y => Qle_bool y x && negb (Qeq_bool y x)) xs) in
+              let eq := List.length (filter (fun y => Qeq_bool y x) xs) in
+              qn (inject_Z (Z.of_nat lt) + (inject_Z (Z.of_nat eq) + 1) / 2)%Q
+  end.
+(* group aggregates used only as window functions: median, nunique (nulls not counted), var (sample variance) *)
+Fixpoint qinsert (x : Q) (l : list Q) : list Q :=
+  match l with [] => [x] | y :: t => if Qle_bool x y then x :: l else y :: qinsert x t end.
+Definition qsort (l : list Q) : list Q := fold_right qinsert [] l.
+Definition median_val (vs : list val) : val :=
+  let s := qsort (nums vs) in
+  let n := List.length s in
+  match n with
+  | O => VNull
+  | _ => if Nat.odd n then qn (nth (Nat.div2 n) s 0%Q)
+         else qn ((nth (Nat.div2 n - 1)%nat s 0%Q + nth (Nat.div2 n) s 0%Q) / 2)%Q
+  end.
+Fixpoint qdistinct (l : list Q) : list Q :=
+  match l with [] => [] | x :: t => x :: filter (fun y => negb (Qeq_bool x y)) (qdistinct t) end.
+Definition nunique_val (vs : list val) : val := qn (inject_Z (Z.of_nat (List.length (qdistinct (nums vs))))).
+Definition var_val (vs : list val) : val :=
+  let xs := nums vs in
+  let n := List.length xs in
+  match n with
+  | O | 1%nat => VNull
+  | _ => let m := Qdiv (qsum xs) (inject_Z (Z.of_nat n)) in
+         qn (Qdiv (qsum (map (fun x => ((x - m) * (x - m))%Q) xs)) (inject_Z (Z.of_nat (n - 1)%nat)))
+  end.
+
 (* value of a window function for every position of an ORDERED partition; extra = the literal arguments after the first *)
 Definition win_fn (fl : flavor) (op : string) (extra : list val) (vs : list val) : list val :=
   match op with
   | "cumsum" => running (f_running_carry fl) Qplus None vs
   | "cummax" => running (f_running_carry fl) qmax None vs
   | "cummin" => running (f_running_carry fl) qmin None vs
+  | "cumprod" => running false Qmult None vs               (* Pandas only: no SQL backend here has a running product *)
+  | "cumcount" => number_from 0 vs                          (* pandas GroupBy.cumcount: 0-based position (the catalogue marks SQL as differing) *)
+  | "_count" => number_from 1 vs                            (* pandas: cumcount() + 1 *)
+  | "rank" => map (rank_val vs) vs
+  | "first" => let a := first_nonnull vs in map (fun _ => a) vs
+  | "last" => let a := last_nonnull vs in map (fun _ => a) vs
+  | "ffill" => ffill_from VNull vs
+  | "bfill" => bfill_list vs
+  | "median" => let a := median_val vs in map (fun _ => a) vs
+  | "nunique" => let a := nunique_val vs in map (fun _ => a) vs
+  | "var" => let a := var_val vs in map (fun _ => a) vs
   | "_row_number" | "row_number" => number_from 1 vs
   | "shift" =>
       match extra with
